@@ -269,6 +269,26 @@ func runC10(b *runner.Batch) {
 		if !e.m.alive("org", now) && r.IntN(3) == 0 {
 			do(e.opRegisterTLD("org", int64(8000+r.IntN(20000))), nil, true)
 		}
+		// now and then the owner of a live parent describes an expired (or never registered) sub-name in its own
+		// zone: a record named exactly like a name does not stand in the way of registering it (seeded change C10-7)
+		if r.IntN(20) == 0 {
+			for _, nm := range c10Names {
+				l := labels(nm)
+				if len(l) < 3 || e.m.alive(nm, now) {
+					continue
+				}
+				parent := strings.Join(l[1:], ".")
+				if pst := e.m.names[parent]; pst != nil && e.m.alive(parent, now) && e.m.suffixesAlive(parent, 1, now) {
+					if i := e.userIdx(pst.owner); i >= 0 {
+						e.seq++
+						if res := do(e.opAddRecord(nm, tTXT, fmt.Sprintf("described by the parent %d", e.seq)), []int{i}, false); res.applied {
+							b.Hit("parent-zone-record-named-like-a-free-name")
+						}
+						break
+					}
+				}
+			}
+		}
 		switch {
 		case k < 9 && r.IntN(7) == 0 && e.registrar != nil:
 			// bought through a contract that passes the name on from its payment callback (seeded change C10-5)
